@@ -26,14 +26,23 @@ func dcgRules(gr []J, dq bool) []string {
 		if dq {
 			// the same terminals written as a string literal (double_quotes = chars)
 			s = strings.ReplaceAll(s, "[x,y]", "\"xy\"")
+			if opt("alphabet") == "unicode" { // (and every terminal list of the body, with the two-byte and three-byte terminals)
+				s = strings.ReplaceAll(s, "[é,日]", "\"é日\"")
+				s = strings.ReplaceAll(s, "[é]", "\"é\"")
+				s = strings.ReplaceAll(s, "[日]", "\"日\"")
+			}
 		}
 		return s
 	}
 	pb := ""
 	if b, _ := gr[5].(bool); b {
-		pb = ", [y]"
+		y, x := "y", "x"
+		if opt("alphabet") == "unicode" {
+			y, x = "日", "é"
+		}
+		pb = ", [" + y + "]"
 		if a2, ok := gr[3].([]J); ok && a2[0] == "a" && a2[1] == "b" {
-			pb = ", [y,x]" // two terminals (GenDcg.tla: Db)
+			pb = ", [" + y + "," + x + "]" // two terminals (GenDcg.tla: Db)
 		}
 	}
 	return []string{
@@ -42,11 +51,42 @@ func dcgRules(gr []J, dq bool) []string {
 		fmt.Sprintf("a(p) --> %s", body(gr[2])),
 		fmt.Sprintf("a(q) --> %s", body(gr[3])),
 		fmt.Sprintf("b%s --> %s", pb, body(gr[4])),
-		"b --> [y]",
+		"b --> " + body(jt.List([]J{jt.A(map[bool]string{false: "y", true: "日"}[opt("alphabet") == "unicode"])}, jt.A("[]"))),
 	}
 }
 
+// dcgUnicode maps the symbolic terminals x, y to a two-byte and a three-byte character.
+func dcgUnicode(t J) J {
+	switch v := t.(type) {
+	case []J:
+		if len(v) == 2 && v[0] == "a" {
+			switch v[1] {
+			case "x":
+				return []J{"a", "é"}
+			case "y":
+				return []J{"a", "日"}
+			}
+			return v
+		}
+		out := make([]J, len(v))
+		for i := range v {
+			out[i] = dcgUnicode(v[i])
+		}
+		return out
+	case map[string]J:
+		out := map[string]J{}
+		for k, x := range v {
+			out[k] = dcgUnicode(x)
+		}
+		return out
+	}
+	return t
+}
+
 func dcgHandle(c map[string]J) map[string]J {
+	if opt("alphabet") == "unicode" {
+		c = dcgUnicode(c).(map[string]J)
+	}
 	gr := c["gr"].([]J)
 	mode := c["mode"].(string)
 	var in []string
